@@ -118,6 +118,8 @@ pub struct W {
     pub burst_n: (u8, u8),
     pub adv_ms: Vec<u64>,
     pub payload_rich: bool,
+    /// weight of multi-megabyte payloads among the plain ones (of about 46)
+    pub big_payload: u32,
     pub push_variants: Vec<u8>,
     pub mod_secs: Vec<i32>,
 }
@@ -164,6 +166,7 @@ impl Default for W {
             burst_n: (17, 40),
             adv_ms: vec![1, 100, 5_000, 9_950, 10_200, 12_300, 30_000],
             payload_rich: false,
+            big_payload: 1,
             push_variants: vec![0],
             mod_secs: vec![1, 5, 10, 11, 30, 599, 600, 601, 100_000],
         }
@@ -175,11 +178,13 @@ fn pick_from<Ty: Clone + std::fmt::Debug + 'static>(v: &[Ty]) -> BoxedStrategy<T
     (0..v.len()).prop_map(move |i| v[i].clone()).boxed()
 }
 
-pub fn arb_payload(rich: bool) -> BoxedStrategy<Payload> {
+pub fn arb_payload(rich: bool, big: u32) -> BoxedStrategy<Payload> {
     if !rich {
         return prop_oneof![
-            8 => Just(Payload::plain()),
-            1 => (0u8..3).prop_map(|a| Payload { kind: 0, len: 0, attrs: a, odd: false }),
+            40 => Just(Payload::plain()),
+            5 => (0u8..3).prop_map(|a| Payload { kind: 0, len: 0, attrs: a, odd: false }),
+            // a few really large messages (response-size budgets)
+            big.max(1) => prop_oneof![Just(2_000_000u32), Just(2_600_000u32), Just(1_100_000u32), Just(100_000u32)].prop_map(|len| Payload { kind: 4, len, attrs: 0, odd: false }),
         ]
         .boxed();
     }
@@ -191,6 +196,7 @@ pub fn arb_payload(rich: bool) -> BoxedStrategy<Payload> {
         2 => (0u8..21).prop_map(|a| Payload { kind: 3, len: 0, attrs: a, odd: false }),
         3 => (0u32..70_000, 0u8..21, any::<bool>()).prop_map(|(len, a, odd)| Payload { kind: 4, len, attrs: a, odd }),
         1 => (0u8..21).prop_map(|a| Payload { kind: 0, len: 0, attrs: a, odd: true }),
+        2 => Just(Payload { kind: 5, len: 0, attrs: 0, odd: false }),
     ]
     .boxed()
 }
@@ -233,7 +239,7 @@ pub fn arb_op(w: &W) -> BoxedStrategy<Op> {
     );
     add(
         w.publish,
-        (t.clone(), 1u8..6, arb_payload(w.payload_rich), a.clone()).prop_map(|(t, n, payload, a)| Op::Publish { t, n, payload, a }).boxed(),
+        (t.clone(), 1u8..6, arb_payload(w.payload_rich, w.big_payload), a.clone()).prop_map(|(t, n, payload, a)| Op::Publish { t, n, payload, a }).boxed(),
     );
     add(
         w.publish_many,
